@@ -2,6 +2,7 @@ import PEval.Lemmas.ClassificationScore
 import PEval.Gen.ClassificationDT
 import PEval.Lemmas.ClassificationDT
 import PEval.Lemmas.ClassificationSim
+import PEval.Lemmas.ClassificationTp
 /-!
 # C11 — classification pairs objects by identity and scores them by label agreement
 
@@ -718,5 +719,168 @@ example :
     encodeC [e0, e1] [g0, g1] (objectResults false true [e0, e1] [g0, g1]) = .other 53 := by decide +kernel
 
 end TableAllInputs
+
+/-! ## "the number of LABEL-CORRECT pairs is the largest possible": the count the metrics use
+
+`tlr_correct_pairs_maximum` maximises `numEqual` (pairs with EQUAL labels).  `ClassificationAccuracy` counts
+`is_label_correct`, which is also true when the ground truth carries the FP label whatever the estimate's
+label (`labelCorrect`, `countTp`).  This section links the two counts:
+
+* `tp_eq_equal_plus_fp_only`: `countTp rs` = equal-label pairs + pairs that are correct ONLY through an FP label;
+* `tlr_tp_maximum`: no ground truth with the FP label ⇒ the TP count of the answer is the maximum over ALL
+  one-to-one same-camera pairings (label-first mode);
+* `tlr_tp_exact`, `tlr_tp_maximum_up_to_fp`, `tlr_tp_not_maximal_with_fp_label`: the FP-label case stated exactly
+  (the TP count is NOT maximal there, not even among pairings every pair of which the rule can form; it depends on
+  the order of the estimates; the gap is at most the number of FP-labelled ground truths);
+* `tlr_uuid_first_maximum`: uuid-first mode (every admissible pair shares uuid and camera, and all of them are made).
+-/
+section TpMaximum
+
+/-- link between the metrics' count and the count of `tlr_correct_pairs_maximum` -/
+theorem tp_eq_equal_plus_fp_only (rs : List Res) :
+    countTp rs = numEqual (resPairs rs) + numFpOnly (resPairs rs) := by
+  rw [countTp_eq_numCorrect, numCorrect_split]
+
+/-- without FP-labelled ground truths "label-correct" and "equal label" are the same count -/
+theorem tp_eq_equal_of_no_fp_label {ests gts : List Obj} {P : List (Obj × Obj)} (hP : Pairing ests gts P)
+    (hfp : ∀ g ∈ gts, g.label.isFP = false) : countTp (paired P) = numEqual P := by
+  rw [← numCorrect_eq_countTp_paired]
+  exact numCorrect_eq_numEqual fun p hp => hfp p.2 (hP.gt_mem p hp)
+
+/-- label-first mode, no ground truth with the FP label: the TP count of the answer (the number
+`ClassificationAccuracy` computes) is the largest TP count of any one-to-one same-camera pairing -/
+theorem tlr_tp_maximum {ests gts : List Obj} {rs : List Res} (hE : ests.Nodup) (hG : gts.Nodup)
+    (hfp : ∀ g ∈ gts, g.label.isFP = false) (h : pairTlr false ests gts = .ok rs) :
+    ∀ P, Pairing ests gts P → countTp (paired P) ≤ countTp rs := by
+  intro P hP
+  obtain ⟨hR, hmax⟩ := tlr_correct_pairs_maximum hE hG h
+  have h1 := tp_eq_equal_of_no_fp_label hP hfp
+  have h2 := tp_eq_equal_of_no_fp_label hR hfp
+  obtain ⟨s1, s2, _, _, hrs⟩ := pairTlr_ok h
+  have h3 : paired (resPairs rs) = rs := by rw [hrs, resPairs_paired]
+  rw [h3] at h2
+  rw [h1, h2]
+  exact hmax P hP
+
+/-- the FP-label case, exactly: the TP count of the label-first answer is the number of label-stage pairs plus
+the number of uuid-stage pairs whose ground truth carries the FP label -/
+theorem tlr_tp_exact {ests gts : List Obj} {rs : List Res} (hE : ests.Nodup)
+    (h : pairTlr false ests gts = .ok rs) :
+    ∃ s1 p2, tlrStage1 false ests gts = .ok s1 ∧ rs = paired (s1.res ++ p2) ∧
+      countTp rs = s1.res.length + p2.countP (fun p => p.2.label.isFP) := by
+  obtain ⟨s1, p2, h1, hrs, hne⟩ := tlr_stage2_pairs_incorrect hE h
+  obtain ⟨_, p2', h1', hrs', H1, _⟩ := tlr_result_split h
+  have hs : tlrStage1 false ests gts = .ok s1 := h1
+  refine ⟨s1, p2, h1, hrs, ?_⟩
+  rw [h1] at h1'
+  cases h1'
+  rw [hrs, ← numCorrect_eq_countTp_paired]
+  unfold numCorrect
+  rw [List.countP_append]
+  congr 1
+  · rw [List.countP_eq_length]
+    intro p hp
+    have := (H1 p hp).2.2.1
+    simp [pairCorrect_eq, equalLabel, this]
+  · apply List.countP_congr
+    intro p hp
+    have := hne p hp
+    simp [pairCorrect_eq, equalLabel, this]
+
+/-- the FP-label case, bound: a competitor can beat the answer's TP count by at most the number of FP-labelled
+ground truths -/
+theorem tlr_tp_maximum_up_to_fp {ests gts : List Obj} {rs : List Res} (hE : ests.Nodup) (hG : gts.Nodup)
+    (h : pairTlr false ests gts = .ok rs) :
+    ∀ P, Pairing ests gts P → countTp (paired P) ≤ countTp rs + gts.countP (fun g => g.label.isFP) := by
+  intro P hP
+  obtain ⟨_, hmax⟩ := tlr_correct_pairs_maximum hE hG h
+  have h1 := hmax P hP
+  have h2 := numFpOnly_le hP
+  have h3 := numEqual_le_numCorrect (resPairs rs)
+  rw [← numCorrect_eq_countTp_paired, numCorrect_split, countTp_eq_numCorrect]
+  omega
+
+/-- a pairing every pair of which the property's rule can form: equal label (label stage) or equal uuid (uuid stage) -/
+def RuleAdmissible (P : List (Obj × Obj)) : Prop := ∀ p ∈ P, p.1.label = p.2.label ∨ p.1.uuid = p.2.uuid
+
+def lfp : Label := { tl := true, name := "false_positive" }
+def ea : Obj := { id := 0, uuid := some "a", label := lg, frame := "cam_front" }
+def ec : Obj := { id := 1, uuid := some "c", label := lg, frame := "cam_front" }
+def ga : Obj := { id := 10, uuid := some "a", label := lfp, frame := "cam_front" }
+def gx : Obj := { id := 11, uuid := some "x", label := lg, frame := "cam_front" }
+
+/-- the FP-label case, deviation: with ONE FP-labelled ground truth the TP count of the label-first answer is not
+the largest possible, even among the pairings the rule itself can form (label stage `(ec, gx)`, uuid stage
+`(ea, ga)`), on unique non-null uuids; and it depends on the order of the estimates (the reversed list reaches 2).
+Reproduced on the real code: `get_object_results` gives TP 1 / TP 2 for the two orders. -/
+theorem tlr_tp_not_maximal_with_fp_label :
+    ([ea, ec].map key).Nodup ∧ ([ga, gx].map key).Nodup ∧ (∀ o ∈ [ea, ec] ++ [ga, gx], o.uuid ≠ none) ∧
+    pairTlr false [ea, ec] [ga, gx] = .ok [⟨ea, some gx⟩] ∧ countTp [⟨ea, some gx⟩] = 1 ∧
+    Pairing [ea, ec] [ga, gx] [(ec, gx), (ea, ga)] ∧ RuleAdmissible [(ec, gx), (ea, ga)] ∧
+    countTp (paired [(ec, gx), (ea, ga)]) = 2 ∧
+    pairTlr false [ec, ea] [ga, gx] = .ok [⟨ec, some gx⟩, ⟨ea, some ga⟩] := by
+  refine ⟨by decide, by decide, by decide, by decide +kernel, by decide, ⟨by decide, by decide, by decide, by decide, by decide⟩,
+    ?_, by decide, by decide +kernel⟩
+  intro p hp
+  simp only [List.mem_cons, List.not_mem_nil, or_false] at hp
+  rcases hp with rfl | rfl
+  · exact Or.inl (by decide)
+  · exact Or.inr (by decide)
+
+/-- the audit's 1×1 instance: one estimate, one FP-labelled ground truth with another uuid – the answer is empty
+(TP 0), the one-pair pairing is label-correct (TP 1); both uuid-first settings -/
+theorem tlr_tp_not_maximal_1x1 :
+    pairTlr false [ec] [ga] = .ok [] ∧ pairTlr true [ec] [ga] = .ok [] ∧
+    Pairing [ec] [ga] [(ec, ga)] ∧ countTp (paired [(ec, ga)]) = 1 :=
+  ⟨by decide +kernel, by decide +kernel, ⟨by decide, by decide, by decide, by decide, by decide⟩, by decide⟩
+
+/-- uuid-first mode on the property's domain: every pairing whose pairs share uuid and camera (the only pairs
+either stage can form) is contained in the answer, so the answer has at least as many label-correct pairs and at
+least as many equally-labelled pairs -/
+theorem tlr_uuid_first_maximum {ests gts : List Obj} {rs : List Res}
+    (hke : (ests.map key).Nodup) (hkg : (gts.map key).Nodup) (h : pairTlr true ests gts = .ok rs) :
+    ∀ P, Pairing ests gts P → (∀ p ∈ P, p.1.uuid = p.2.uuid) →
+      P ⊆ resPairs rs ∧ countTp (paired P) ≤ countTp rs ∧ numEqual P ≤ numEqual (resPairs rs) := by
+  intro P hP hu
+  have hsub : P ⊆ resPairs rs := by
+    intro p hp
+    have := (tlr_uuid_first_iff_same_uuid hke hkg h p.1 p.2).2
+      ⟨hP.est_mem p hp, hP.gt_mem p hp, hu p hp, hP.cam p hp⟩
+    exact mem_resPairs.2 this
+  have hnd : P.Nodup := List.Nodup.of_map _ hP.est_once
+  refine ⟨hsub, ?_, countP_le_of_subset hnd hsub _⟩
+  rw [← numCorrect_eq_countTp_paired, countTp_eq_numCorrect]
+  exact countP_le_of_subset hnd hsub _
+
+/-- a DEFECTIVE variant of the matcher: the uuid stage runs before the label stage -/
+def pairTlr_uuidStageFirst (ests gts : List Obj) : Except Err (List Res) :=
+  match outer (stepG sameKey) gts ests (initSt ests gts) with
+  | .error x => .error x
+  | .ok s1 =>
+    match outer (stepG (cond1 false)) s1.gs s1.es s1 with
+    | .error x => .error x
+    | .ok s2 => .ok (paired s2.res)
+
+/-- `tlr_tp_maximum` says something: its conclusion fails for the defective variant (no FP label involved) -/
+example : ∃ rs, pairTlr_uuidStageFirst [e1, e2] [g1, g2] = .ok rs ∧ (∀ g ∈ [g1, g2], g.label.isFP = false) ∧
+    ¬ (∀ P, Pairing [e1, e2] [g1, g2] P → countTp (paired P) ≤ countTp rs) :=
+  ⟨[⟨e1, some g1⟩, ⟨e2, some g2⟩], by decide +kernel, by decide, fun hmax => by
+    have := hmax [(e1, g2), (e2, g1)] ⟨by decide, by decide, by decide, by decide, by decide⟩
+    revert this
+    decide⟩
+
+/-- non-vacuity of `tlr_tp_maximum` / `tlr_tp_maximum_up_to_fp` / `tlr_tp_exact`: the three-camera instance has no
+FP-labelled ground truth and a competitor; the FP instance `[ea, ec] / [ga, gx]` above has one -/
+example : [e1, e2, e3].Nodup ∧ [g1, g2, g3].Nodup ∧ (∀ g ∈ [g1, g2, g3], g.label.isFP = false) ∧
+    (∃ rs, pairTlr false [e1, e2, e3] [g1, g2, g3] = .ok rs) ∧ [ea, ec].Nodup ∧ [ga, gx].Nodup ∧
+    [ga, gx].countP (fun g => g.label.isFP) = 1 :=
+  ⟨by decide, by decide, by decide, ⟨[⟨e1, some g2⟩, ⟨e2, some g1⟩, ⟨e3, some g3⟩], by decide +kernel⟩, by decide, by decide, by decide⟩
+
+/-- non-vacuity of `tlr_uuid_first_maximum`: the uuid pairing is a competitor all of whose pairs share the uuid -/
+example : Pairing [e1, e2, e3] [g1, g2, g3] [(e1, g1), (e2, g2), (e3, g3)] ∧
+    ∀ p ∈ [(e1, g1), (e2, g2), (e3, g3)], p.1.uuid = p.2.uuid :=
+  ⟨⟨by decide, by decide, by decide, by decide, by decide⟩, by decide⟩
+
+end TpMaximum
 
 end PEval.C11
